@@ -180,54 +180,70 @@ def mask_application(ctx, rule, qual, branch_body, multi, strict_char_map=True):
         ctx.bad(rule, qual, 'slices start=%s end=%s' % (facts['start_word'], facts['end_word']),
                 'the mask applies to the last len(mask) characters: the kept prefix and the re-cased tail must be the '
                 'complementary slices cur_guess[:-n] and cur_guess[-n:]', facts, fn)
-    # the per-character map
+    # the per-character map.  Two spellings of "position i of the mask and of the tail":
+    #   counter form    k = 0 ... for c in mask: <if> ... k += 1            (k: any name)
+    #   enumerate form  for k, c in enumerate(mask): <if>
     maps = []
     for n in (x for st in branch_body for x in walk_local(st)):
-        if isinstance(n, ast.For) and isinstance(n.target, ast.Name) and U(n.iter) == 'mask':
-            maps.append(n)
+        if isinstance(n, ast.For):
+            if isinstance(n.target, ast.Name) and U(n.iter) == 'mask':
+                maps.append((n, n.target.id, None))
+            elif isinstance(n.target, ast.Tuple) and len(n.target.elts) == 2 and all(isinstance(e, ast.Name) for e in n.target.elts) \
+                    and U(n.iter) == 'enumerate(mask)':
+                maps.append((n, n.target.elts[1].id, n.target.elts[0].id))
     if len(maps) != 1:
-        ctx.bad(rule, qual, '%d character loops over the mask' % len(maps), 'one pass over the mask characters', facts, fn)
+        if not maps:
+            ctx.unk(rule, qual, 'no pass over the mask characters recognised in the capitalisation branch')
+        else:
+            ctx.bad(rule, qual, '%d character loops over the mask' % len(maps), 'one pass over the mask characters', facts, fn)
         return False
-    ml_ = maps[0]
-    ch = ml_.target.id
-    body = ml_.body
+    ml_, ch, k = maps[0]
+    body = list(ml_.body)
+    loop_assign = {}
+    for n in (x for st in branch_body for x in walk_local(st)):
+        if isinstance(n, ast.Assign) and len(n.targets) == 1 and isinstance(n.targets[0], ast.Name):
+            loop_assign.setdefault(n.targets[0].id, []).append(U(n.value))
+    counter_ok = True
+    if k is None:
+        # counter form: last statement k += 1, k reset to 0 for every mask
+        if len(body) == 2 and isinstance(body[1], ast.AugAssign) and isinstance(body[1].target, ast.Name) \
+                and isinstance(body[1].op, ast.Add) and const(body[1].value) == 1:
+            k = body[1].target.id
+            body = body[:1]
+            counter_ok = '0' in loop_assign.get(k, [])
+        else:
+            k = None
     shape_ok = False
-    if len(body) == 2 and isinstance(body[0], ast.If) and isinstance(body[1], ast.AugAssign) \
-            and U(body[1]) == 'index += 1' and len(body[0].body) == 1 and len(body[0].orelse) == 1:
+    if k is not None and len(body) == 1 and isinstance(body[0], ast.If) and len(body[0].body) == 1 and len(body[0].orelse) == 1:
         t = body[0].test
         a1 = U(body[0].body[0])
         a2 = U(body[0].orelse[0])
-        if U(t) == "%s == 'L'" % ch and a1 == 'new_end.append(end_word[index])' and a2 == 'new_end.append(end_word[index].upper())':
+        keep, up = 'new_end.append(end_word[%s])' % k, 'new_end.append(end_word[%s].upper())' % k
+        if U(t) == "%s == 'L'" % ch and a1 == keep and a2 == up:
             shape_ok = True
-        if U(t) == "%s == 'U'" % ch and a2 == 'new_end.append(end_word[index])' and a1 == 'new_end.append(end_word[index].upper())':
+        if U(t) in ("%s == 'U'" % ch, "%s != 'L'" % ch) and a2 == keep and a1 == up:
             shape_ok = True
         if not strict_char_map and not shape_ok:
             # for one-to-one case mappings upper-casing the whole tail first is equivalent
-            ups = [k for k, v in assigns.items() if U(v) == 'end_word.upper()']
+            ups = [k_ for k_, v in assigns.items() if U(v) == 'end_word.upper()']
             for u_ in ups:
-                if U(t) == "%s == 'L'" % ch and a1 == 'new_end.append(end_word[index])' and a2 == 'new_end.append(%s[index])' % u_:
+                if U(t) == "%s == 'L'" % ch and a1 == keep and a2 == 'new_end.append(%s[%s])' % (u_, k):
                     shape_ok = True
-        facts['char_map'] = {'test': U(t), 'then': a1, 'else': a2}
+        facts['char_map'] = {'test': U(t), 'then': a1, 'else': a2, 'position': k}
     else:
-        facts['char_map'] = [U(s)[:60] for s in body]
+        facts['char_map'] = [U(s)[:60] for s in ml_.body]
     if not shape_ok:
         ok = False
         ctx.bad(rule, qual, 'mask character map %s' % facts['char_map'],
                 "each mask character must map the character at the same index of the tail: 'L' keeps it, anything else "
                 "upper-cases *that character* (case-mapping the whole tail first and indexing the result shifts positions "
                 "for characters whose upper case is longer)", facts, ml_)
-    # index reset per mask, join(start + new_end)
-    joined = [v for v in (assigns.get('new_guess'),) if v is not None]
-    loop_assign = {}
-    for n in (x for st in branch_body for x in walk_local(st)):
-        if isinstance(n, ast.Assign) and len(n.targets) == 1 and isinstance(n.targets[0], ast.Name):
-            loop_assign.setdefault(n.targets[0].id, []).append(U(n.value))
+    # tail rebuilt per mask, join(start + new_end)
     facts['new_guess'] = loop_assign.get('new_guess')
-    if loop_assign.get('new_guess') != ["''.join(start_word + new_end)"] or loop_assign.get('new_end') != ['[]'] \
-            or '0' not in loop_assign.get('index', []):
+    if loop_assign.get('new_guess') != ["''.join(start_word + new_end)"] or loop_assign.get('new_end') != ['[]'] or not counter_ok:
         ok = False
-        ctx.bad(rule, qual, 'recombination %s / new_end %s / index %s' % (loop_assign.get('new_guess'), loop_assign.get('new_end'),
-                                                                            loop_assign.get('index')),
+        ctx.bad(rule, qual, 'recombination %s / new_end %s / position counter reset: %s' % (loop_assign.get('new_guess'), loop_assign.get('new_end'),
+                                                                                             counter_ok),
                 "the re-cased tail must be rebuilt from scratch for every mask and joined after the kept prefix", facts, fn)
     if multi:
         loops = [l for l in branch_body if isinstance(l, ast.For)]
